@@ -572,7 +572,31 @@ def r11(ctx):
         raise AnalysisBroken('C19.R11: the priority is not written in Message::dumpField')
 
 
+def r12(ctx):
+    ctx.rule('C19.R12', 'the lengths of chain parts are written in decimal: in ChainedMessage::dumpField the insertion of m_lengths[...] '
+             'into the output is preceded, on every path from the last insertion in hexadecimal mode (the ID bytes), by a '
+             'manipulator that sets the decimal base - a helper that restores the stream flags of its caller leaves whatever '
+             'base an earlier column (qq, zz) set', minimum=1)
+    fb = ctx.fb
+    fn = fb.fn('ebusd::ChainedMessage::dumpField')
+    ctx.touch(fn)
+    ins = [c for c in fn.all('CXXOperatorCallExpr') if fn.nodes[c].get('op') == '<<' and len(fn.nodes[c].get('args', [])) == 2 and
+           'this.m_lengths[' in fn.key(fn.nodes[c]['args'][1])]
+    if not ins:
+        raise AnalysisBroken('C19.R12: chain part length is not written in ChainedMessage::dumpField')
+    decs = set(c for c in fn.all('CXXOperatorCallExpr') if fn.nodes[c].get('op') == '<<' and len(fn.nodes[c].get('args', [])) == 2 and
+               fn.key(fn.nodes[c]['args'][1]).split('::')[-1] in ('dec', 'std::dec') or
+               (fn.nodes[c].get('op') == '<<' and len(fn.nodes[c].get('args', [])) == 2 and fn.key(fn.nodes[c]['args'][1]) in ('dec', 'std::dec')))
+    for c in ins:
+        # a dec in the same insertion chain to the left of the length counts
+        chain = set(fn.walk(fn.nodes[c]['args'][0]))
+        inchain = any(d in chain for d in decs)
+        stale = not inchain and fn.reaches_point(fn.entry, fn.pos(c), decs)
+        ctx.ob('C19.R12', fn, c, not stale, 'chain part length written by dumpField', 'decimal base set on every path before it: %s' % (not stale))
+
+
 def run(ctx):
+    r12(ctx)
     r11(ctx)
     r10(ctx)
     r9(ctx)
